@@ -114,6 +114,7 @@ class Builder:
   def const_text(s, T):
     if T[0] == 'b': return str(s.rng.randrange(0, 1 << min(T[1], 8)))
     if T[1] == 'Pt': return f'Pt( {s.rng.randrange(256)}, {s.rng.randrange(16)} )'
+    if T[1] in ('Mat', 'Sq'): return f'{T[1]}()'
     return f'Outer( Pt( {s.rng.randrange(256)}, {s.rng.randrange(16)} ), {s.rng.randrange(16)} )'
 
   def add_blocks(s, special=None):
@@ -393,26 +394,32 @@ def simulate(ctx, d, top, nets, src, tag):
     for x in d.insts[()].sigs:
       if x.kind == 'in':
         v = r.getrandbits(twidth(x.T)); sc.set_input(top, x.name, v); vals[x.name] = v
-    top.sim_eval_combinational()
-    for w, ms in nets:
+    for phase in ('sim_eval_combinational', 'sim_tick'):
       try:
-        wv = ec.const_value(w) if w.startswith('Bits') else ec.sim_value(top, w)
-        for m in ms:
-          e = d.ep_by_name.get(m)
-          if e is None or isinstance(e, ConstEP): continue
-          nb = getattr(ec.lookup(top, m), 'nbits', None)
-          if nb is not None and nb != e.hi - e.lo:
-            ctx.violation(feature_key(d, src, 'net-value', 'width'), f'design {d.name} ({tag}): in simulation {m} holds a value of {nb} bits but denotes {e.hi - e.lo} bits (net written by {w})',
-                          {'design_source': src, 'net_writer': w, 'net_members': ms, 'member': m, 'simulated_nbits': nb, 'expected_nbits': e.hi - e.lo})
-            return True
-        bad = [(m, ec.sim_value(top, m)) for m in ms if not m.startswith('Bits') and ec.sim_value(top, m) != wv]
+        getattr(top, phase)()
       except Exception as e:
-        ctx.violation('C08:harness-simvalue', f'cannot read simulated value: {e!r}', {'design_source': src}, found_input=False); return True
-      if bad:
-        key = 'C08:same-net-overlapping-slices' if overlapping_readers(d, w, ms) else feature_key(d, src, 'net-value')
-        ctx.violation(key, f'design {d.name} ({tag}): after sim_eval_combinational members of the net written by {w} differ from the writer: writer={wv:#x}, members={[(m, hex(v)) for m, v in bad[:4]]} (inputs {vals})',
-                      {'design_source': src, 'net_writer': w, 'net_members': ms, 'writer_value': wv, 'differing_members': bad, 'inputs': vals})
+        ctx.violation(f'C08:sim-run:{type(e).__name__}', f'design {d.name} ({tag}) elaborated and was scheduled, but {phase}() raises {type(e).__name__}: {str(e)[:200]} (inputs {vals})',
+                      {'design_source': src, 'inputs': vals, 'traceback': traceback.format_exc()[-1500:]})
         return True
+      for w, ms in nets:
+        try:
+          wv = ec.const_value(w) if w.startswith('Bits') else ec.sim_value(top, w)
+          for m in ms:
+            e = d.ep_by_name.get(m)
+            if e is None or isinstance(e, ConstEP): continue
+            nb = getattr(ec.lookup(top, m), 'nbits', None)
+            if nb is not None and nb != e.hi - e.lo:
+              ctx.violation(feature_key(d, src, 'net-value', 'width'), f'design {d.name} ({tag}): in simulation {m} holds a value of {nb} bits but denotes {e.hi - e.lo} bits (net written by {w})',
+                            {'design_source': src, 'net_writer': w, 'net_members': ms, 'member': m, 'simulated_nbits': nb, 'expected_nbits': e.hi - e.lo})
+              return True
+          bad = [(m, ec.sim_value(top, m)) for m in ms if not m.startswith('Bits') and ec.sim_value(top, m) != wv]
+        except Exception as e:
+          ctx.violation('C08:harness-simvalue', f'cannot read simulated value: {e!r}', {'design_source': src}, found_input=False); return True
+        if bad:
+          key = 'C08:same-net-overlapping-slices' if overlapping_readers(d, w, ms) else feature_key(d, src, 'net-value')
+          ctx.violation(key, f'design {d.name} ({tag}): after {phase} members of the net written by {w} differ from the writer: writer={wv:#x}, members={[(m, hex(v)) for m, v in bad[:4]]} (inputs {vals})',
+                        {'design_source': src, 'net_writer': w, 'net_members': ms, 'writer_value': wv, 'differing_members': bad, 'inputs': vals})
+          return True
   return True
 
 def overlapping_readers(d, w, ms):
@@ -436,7 +443,7 @@ def run(ctx):
   import pymtl3
   quick = ctx.tier == 'quick'
   rng = ctx.rng
-  ndes = 150 if quick else 1500
+  ndes = 130 if quick else 1500
   nvar = (10, 16) if quick else (14, 20)
   cases, meta = [], []
   worker_cases, worker_expect = [], {}
@@ -488,6 +495,12 @@ def run(ctx):
         if isinstance(e, ConstEP): cv.setdefault((h, e.value), set()).add(e.T)
     if any(len(v) > 1 for v in cv.values()) or any(sum(1 for hh, st in d.conns() if hh == h and any(isinstance(e, ConstEP) and e.value == val for e in (st[1], st[2]))) > 1 for (h, val) in cv):
       feats.add('equal-constants-in-one-component')
+    for h, st in d.conns():
+      for e in (st[1], st[2]):
+        if isinstance(e, EP):
+          if '.m[' in e.suffix or '.q[' in e.suffix: feats.add('net-member:2D-list-field-element')
+          if '.v[' in e.suffix: feats.add('net-member:1D-list-field-element')
+          if e.sig.lst: feats.add(f'net-member:signal-list-{"x".join(map(str, e.sig.lst[1]))}')
     for f in feats: ctx.hist['feature:' + f] = ctx.hist.get('feature:' + f, 0) + 1
     ctx.hist[f'connects:{"1-3" if nconn <= 3 else "4-10" if nconn <= 10 else "11-30"}'] = ctx.hist.get(f'connects:{"1-3" if nconn <= 3 else "4-10" if nconn <= 10 else "11-30"}', 0) + 1
     # all statement orders / orientations must give the same nets and the same writers (or the same error class)
